@@ -182,7 +182,7 @@ v("C11", "n1-switch-order", "benign", "bind.go", "\tcase MIMEApplicationJSON:\n\
 # ---------------------------------------------------------------- C12
 v("C12", "b1-no-clearcookie", "break", "redirect.go", "\t// the messages are consumed, expire the cookie on the client\n\tr.c.ClearCookie(FlashCookieName)\n", "", "expires-cookie", "reverts F7c")
 v("C12", "b2-partial-on-error", "break", "redirect.go", "\t\tif rest, err = msg.UnmarshalMsg(rest); err != nil {\n\t\t\tr.c.flashMessages = r.c.flashMessages[:0]\n\t\t\treturn\n\t\t}", "\t\tif rest, err = msg.UnmarshalMsg(rest); err != nil {\n\t\t\treturn\n\t\t}", "error⇒empty", "partial result kept")
-v("C12", "b3-unbounded", "break", "redirect.go", "\tif err != nil || int64(size) > int64(len(rest)) {\n\t\treturn\n\t}\n\n\tfor i := uint32(0); i < size; i++ {", "\tif err != nil {\n\t\treturn\n\t}\n\tr.c.flashMessages = make(redirectionMsgs, 0, size)\n\n\tfor i := uint32(0); i < size; i++ {", "make(", "unbounded allocation")
+v("C12", "b3-unbounded", "break", "redirect.go", "\tif err != nil || int64(size) > int64(len(rest)) {\n\t\treturn\n\t}\n\n\tfor i := uint32(0); i < size; i++ {", "\tif err != nil {\n\t\treturn\n\t}\n\tr.c.flashMessages = make(redirectionMsgs, 0, size)\n\n\tfor i := uint32(0); i < size; i++ {", "parseAndClearFlashMessages", "unbounded allocation")
 v("C12", "b4-generated-slice-decoder", "break", "redirect.go", "\tfor i := uint32(0); i < size; i++ {", "\tif size > 1 {\n\t\t_, _ = r.c.flashMessages.UnmarshalMsg(cookieValue)\n\t}\n\tfor i := uint32(0); i < size; i++ {", "stale-elements", "generated decoder on the reused slice again")
 v("C12", "b5-prefilter-dropped", "break", "router.go", "\trawHeaders := ctx.Request().Header.RawHeaders()\n\tif len(rawHeaders) > 0 && bytes.Contains(rawHeaders, []byte(FlashCookieName)) {\n\t\tctx.Redirect().parseAndClearFlashMessages()\n\t}\n\n\t// Attempt to match a route and execute the chain\n\t_, err := app.next(ctx)", "\tctx.Redirect().parseAndClearFlashMessages()\n\n\t// Attempt to match a route and execute the chain\n\t_, err := app.next(ctx)", "flash-prefilter", "every request decodes")
 v("C12", "b6-release-keeps-messages", "break", "ctx.go", "\tc.flashMessages = c.flashMessages[:0]\n\tc.viewBindMap", "\tc.viewBindMap", "release:empties-flashMessages", "messages survive release")
@@ -228,7 +228,7 @@ v("C17", "b7-headers-set-not-add", "break", "middleware/idempotency/idempotency.
 v("C17", "n1-named-unlock", "benign", "middleware/idempotency/locker.go", "\tlock, ok := l.keys[key]\n\tif !ok {\n\t\tlock = new(countedLock)\n\t\tl.keys[key] = lock\n\t}\n\tlock.locked++", "\tlock, found := l.keys[key]\n\tif !found {\n\t\tlock = new(countedLock)\n\t\tl.keys[key] = lock\n\t}\n\tlock.locked++", why="rename")
 
 # ---------------------------------------------------------------- C18
-v("C18", "b1-purge-not-stored", "break", "client/cookiejar.go", "\t\t\t// keep the jar in step with the purge: a released cookie must not stay referenced\n\t\t\tcj.hostCookies[host] = cookies\n", "", "getCookiesByHost:store-back", "reverts F15b")
+v("C18", "b1-purge-not-stored", "break", "client/cookiejar.go", "\t\t\tcj.hostCookies[utils.CopyString(host)] = cookies\n", "", "getCookiesByHost:store-back", "reverts F15b")
 v("C18", "b2-reappend-found", "break", "client/cookiejar.go", "\t\t\tif created {\n\t\t\t\tcookies = append(cookies, c)\n\t\t\t}", "\t\t\tcookies = append(cookies, c)", "found-element-not-reappended", "reverts F15c")
 v("C18", "b3-writer-keeps-port", "break", "client/cookiejar.go", "func (cj *CookieJar) SetByHost(host []byte, cookies ...*fasthttp.Cookie) {\n\thost = hostWithoutPort(host)\n", "func (cj *CookieJar) SetByHost(host []byte, cookies ...*fasthttp.Cookie) {\n", "hostCookies-key:SetByHost", "reverts part of F15d")
 v("C18", "b4-release-on-cancel-unconditional", "break", "client/core.go", "\t\tif !atomic.CompareAndSwapInt32(&done, 0, 1) {\n\t\t\t// The request already completed and its goroutine owns resp and errCh\n\t\t\t// until it has sent the result: wait for it before releasing them.\n\t\t\t<-errCh\n\t\t}\n", "\t\tatomic.SwapInt32(&done, 1)\n", "release-needs-receive-or-flag", "reverts F15e")
@@ -255,6 +255,43 @@ v("C20", "b4-nonce-not-random", "break", "middleware/encryptcookie/utils.go", "\
 v("C20", "b5-open-error-returns-raw", "break", "middleware/encryptcookie/utils.go", "\tif err != nil {\n\t\treturn \"\", fmt.Errorf(\"failed to decrypt ciphertext: %w\", err)\n\t}", "\tif err != nil {\n\t\treturn value, fmt.Errorf(\"failed to decrypt ciphertext: %w\", err)\n\t}", "plaintext-only-from-Open", "unauthenticated text returned")
 v("C20", "b6-handler-before-decrypt", "break", "middleware/encryptcookie/encryptcookie.go", "\t\tvar names []string\n", "\t\tif c.Method() == fiber.MethodOptions {\n\t\t\treturn c.Next()\n\t\t}\n\t\tvar names []string\n", "response-visitor-after-Next", "OPTIONS skips both directions")
 v("C20", "n1-names-prealloc", "benign", "middleware/encryptcookie/encryptcookie.go", "\t\tvar names []string\n", "\t\tnames := make([]string, 0, 4)\n", why="preallocated slice")
+
+
+# ---------------------------------------------------------------- rules added after the seeded changes
+v("C01", "b9-append-in-place", "break", "router.go",
+  "preRoute.Handlers = append(preRoute.Handlers[:len(preRoute.Handlers):len(preRoute.Handlers)], route.Handlers...)", "preRoute.Handlers = append(preRoute.Handlers, route.Handlers...)",
+  "append-to-Route.Handlers", "reverts the F17 fix")
+v("C02", "b8-constraint-on-folded-copy", "break", "path.go",
+  "if matched := c.CheckConstraint(params[paramsIterator]); !matched {", "if matched := c.CheckConstraint(detectionPath[:i]); !matched {",
+  "argument-is-captured-value", "constraints judged on the case-folded copy")
+v("C03", "b7-fold-before-unescape", "break", "path.go",
+  "\t// Decode the path like the request path is decoded\n\tif config.UnescapePath {\n\t\tpath = string(fasthttp.AppendUnquotedArg(nil, []byte(path)))\n\t}\n\t// Case-sensitive routing, all to lowercase\n\tif !config.CaseSensitive {\n\t\tpatternPretty = utils.ToLowerBytes(patternPretty)\n\t\tpath = utils.ToLower(path)\n\t}\n",
+  "\t// Case-sensitive routing, all to lowercase\n\tif !config.CaseSensitive {\n\t\tpatternPretty = utils.ToLowerBytes(patternPretty)\n\t\tpath = utils.ToLower(path)\n\t}\n\t// Decode the path like the request path is decoded\n\tif config.UnescapePath {\n\t\tpath = string(fasthttp.AppendUnquotedArg(nil, []byte(path)))\n\t}\n",
+  "path-order", "lower-casing before percent-decoding")
+v("C04", "b7-join-normalised-path", "break", "router.go",
+  "prefixedPath := getGroupPath(prefix, route.Path)", "prefixedPath := getGroupPath(prefix, route.path)", "joins-raw-pattern", "sub-app normalisation baked into the mounted route")
+v("C05", "b8-pooled-accept-map-dirty", "break", "helpers.go",
+  "\t\t\t\tfor k := range params {\n\t\t\t\t\tdelete(params, k)\n\t\t\t\t}\n", "", "pooled-map-cleared", "Accept parameters leak between requests")
+v("C10", "b7-validator-on-tail", "break", "ctx.go",
+  "\t\t\tif c.app.config.EnableIPValidation {\n\t\t\t\tif (!v6 && !v4) || (v6 && !utils.IsIPv6(s)) || (v4 && !utils.IsIPv4(s)) {\n\t\t\t\t\tcontinue iploop",
+  "\t\t\tif c.app.config.EnableIPValidation {\n\t\t\t\tif (!v6 && !v4) || (v6 && !v4 && !utils.IsIPv6(s)) || (v4 && !utils.IsIPv4(s[strings.LastIndexByte(s, ':')+1:])) {\n\t\t\t\t\tcontinue iploop",
+  "judges-returned-value", "validator applied to the tail only")
+v("C10", "n2-trust-helper-extraction", "benign", "ctx.go",
+  "\tip := c.fasthttp.RemoteIP()\n\n\tif (c.app.config.TrustProxyConfig.Loopback && ip.IsLoopback()) ||\n\t\t(c.app.config.TrustProxyConfig.Private && ip.IsPrivate()) ||\n\t\t(c.app.config.TrustProxyConfig.LinkLocal && ip.IsLinkLocalUnicast()) {\n\t\treturn true\n\t}\n",
+  "\tip := c.fasthttp.RemoteIP()\n\n\tif c.app.peerInTrustedClass(ip) {\n\t\treturn true\n\t}\n",
+  why="class test moved into a helper",
+  file2="helpers.go", find2="// defaultString returns the value or a default value if it is set\n",
+  replace2="func (app *App) peerInTrustedClass(ip net.IP) bool {\n\tif app.config.TrustProxyConfig.Loopback && ip.IsLoopback() {\n\t\treturn true\n\t}\n\tif app.config.TrustProxyConfig.Private && ip.IsPrivate() {\n\t\treturn true\n\t}\n\tif app.config.TrustProxyConfig.LinkLocal && ip.IsLinkLocalUnicast() {\n\t\treturn true\n\t}\n\treturn false\n}\n\n// defaultString returns the value or a default value if it is set\n")
+v("C11", "b7-uint-through-formatint", "break", "client/request.go",
+  "p.Add(name, strconv.FormatUint(val.Uint(), 10))", "p.Add(name, strconv.FormatInt(int64(val.Uint()), 10))", "formatter", "uint64 above MaxInt64 sent negative")
+v("C12", "b7-with-overwrites-old-input", "break", "redirect.go",
+  "\tfor i, msg := range r.messages {\n\t\tif msg.key == key && !msg.isOldInput {", "\tfor i, msg := range r.messages {\n\t\tif msg.key == key {", "overrides-only-flash-entries", "flash message overwrites old input")
+v("C16", "b8-session-key-not-compared", "break", "middleware/csrf/session_manager.go",
+  "key != token.Key || !compareTokens(raw, token.Raw)", "key != token.Key && !compareTokens(raw, token.Raw)", "sessionManager.getRaw:key-equal", "forged token passes with a live session")
+v("C18", "b10-release-found-cookie", "break", "client/cookiejar.go",
+  "\t\t} else if created {\n\t\t\tfasthttp.ReleaseCookie(c)\n\t\t}", "\t\t} else {\n\t\t\tfasthttp.ReleaseCookie(c)\n\t\t}", "found-element-not-released", "referenced cookie released to the pool")
+v("C18", "b11-store-under-unsafe-key", "break", "client/cookiejar.go",
+  "\thostCookies := cj.hostCookies[hostStr]\n\thostStr = string(host)\n", "\thostCookies := cj.hostCookies[hostStr]\n", "hostCookies-store-key:SetByHost", "stored key aliases the caller's buffer")
 
 os.makedirs('/verif/selftest', exist_ok=True)
 for prop, vs in V.items():
